@@ -97,8 +97,9 @@ pub fn set_mathml(mathml_str: String) -> Result<String> {
         // if these are present when resent to MathJaX, MathJaX crashes (https://github.com/mathjax/MathJax/issues/2822)
         static ref MATHJAX_V2: Regex = Regex::new(r#"class *= *['"]MJX-.*?['"]"#).unwrap();
         static ref MATHJAX_V3: Regex = Regex::new(r#"class *= *['"]data-mjx-.*?['"]"#).unwrap();
-        static ref NAMESPACE_DECL: Regex = Regex::new(r#"xmlns:[[:alpha:]]+"#).unwrap();     // very limited namespace prefix match
-        static ref PREFIX: Regex = Regex::new(r#"(</?)[[:alpha:]]+:"#).unwrap();     // very limited namespace prefix match
+        // a namespace prefix is an XML name without ':' (ASCII only here): 'm', 'mml', but also 'ns0', 'm_1'
+        static ref NAMESPACE_DECL: Regex = Regex::new(r#"xmlns:[[:alpha:]_][[:alnum:]_.-]*"#).unwrap();
+        static ref PREFIX: Regex = Regex::new(r#"(</?)[[:alpha:]_][[:alnum:]_.-]*:"#).unwrap();
         static ref HTML_ENTITIES: Regex = Regex::new(r#"&([a-zA-Z0-9]+?);"#).unwrap();
     }
 
